@@ -139,7 +139,7 @@ Qed.
 
 Lemma it_snext_lift : forall i ctx its p r, norec_it i = true -> envok ctx -> LiftN (it_snext toks spn run i ctx its p) r.
 Proof.
-  induction i as [a lo hi|a sep lo hi lead trail|j IHj|f j IHj|f j IHj|a|a lo hi ck|a];
+  induction i as [a lo hi|a sep lo hi lead trail|j IHj|f j IHj|f j IHj|a|a lo hi ck|a|i1 IHi1 i2 IHi2];
     intros ctx its p r Hn He x its' r' Hr H; cbn [it_snext] in H |- *; cbn [norec_it] in Hn.
   - destruct its; try discriminate.
     destruct (rep_snext run a lo hi ctx n p r) as [[[x0 c'] r0]|] eqn:E; [|discriminate]. injection H as <- <- <-.
@@ -160,17 +160,28 @@ Proof.
   - destruct its; try discriminate. destruct b; [injection H as <- <- <-; auto|].
     destruct (run a ctx p r) as [[[[[v1 p1] e1]|] r1]|] eqn:E; try discriminate; destruct (HL _ _ _ _ _ _ Hn He Hr E) as (W & Lf);
       injection H as <- <- <-; (split; auto); intros b Hb; now rewrite (Lf b Hb).
-  - destruct its as [c|k js|b|c clo chi|k|o]; try discriminate.
+  - destruct its as [c|k js|b|c clo chi|k|o|sa sb]; try discriminate.
     + destruct (rep_snext run a clo chi ctx c p r) as [[[x0 c'] r0]|] eqn:E; [|discriminate]. injection H as <- <- <-.
       destruct (rep_snext_lift a clo chi ctx c p r Hn He _ _ _ Hr E) as (W & Lf). split; auto. intros b Hb. now rewrite (Lf b Hb).
     + destruct (run (TryMap PFalse FId k Empty) ctx p r) as [[[?|] r1]|] eqn:E; try discriminate.
       destruct (HL _ _ _ _ _ _ (eq_refl : norec (TryMap PFalse FId k Empty) = true) He Hr E) as (W & Lf).
       injection H as <- <- <-. split; auto. intros b Hb. now rewrite (Lf b Hb).
-  - destruct its as [| | | | |[l|]]; try discriminate.
+  - destruct its as [| | | | |[l|]|]; try discriminate.
     + destruct l; injection H as <- <- <-; auto.
     + destruct (run a ctx p r) as [[[[[v1 p1] e1]|] r1]|] eqn:E; try discriminate; destruct (HL _ _ _ _ _ _ Hn He Hr E) as (W & Lf).
       * destruct (val_items v1) eqn:Ev; injection H as <- <- <-; (split; auto); intros b Hb; rewrite (Lf b Hb), ?Ev; reflexivity.
       * injection H as <- <- <-. split; auto. intros b Hb. now rewrite (Lf b Hb).
+  - apply andb_prop in Hn. destruct Hn as (Hn1 & Hn2).
+    destruct its as [| | | | | |sa [sb|]]; try discriminate.
+    + destruct (it_snext toks spn run i2 ctx sb p r) as [[[x0 c'] r0]|] eqn:E; [|discriminate].
+      destruct (IHi2 ctx sb p r Hn2 He _ _ _ Hr E) as (W & Lf). injection H as <- <- <-. split; auto.
+      intros b Hb. now rewrite (Lf b Hb).
+    + destruct (it_snext toks spn run i1 ctx sa p r) as [[[x0 c'] r0]|] eqn:E; [|discriminate].
+      destruct (IHi1 ctx sa p r Hn1 He _ _ _ Hr E) as (W & Lf).
+      destruct x0; try (injection H as <- <- <-; (split; auto); intros b Hb; now rewrite (Lf b Hb)).
+      destruct (it_snext toks spn run i2 ctx (mk_iter i2 ctx) p0 r0) as [[[x1 c1] r1]|] eqn:E2; [|discriminate].
+      destruct (IHi2 ctx (mk_iter i2 ctx) p0 r0 Hn2 He _ _ _ W E2) as (W2 & L2).
+      destruct x1; injection H as <- <- <-; (split; auto); intros b Hb; rewrite (Lf b Hb), (L2 b Hb); reflexivity.
 Qed.
 
 Lemma sdrive_lift : forall fuel i ctx its lim acc acce p r o r', norec_it i = true -> envok ctx -> wfr r ->
@@ -435,6 +446,8 @@ Proof.
   - (* GroupArr *) exact (group_sem_lift _ IH gs ctx p r [] [] o r' Hn He Hr H).
   - (* NestedIn *) discriminate.
   - (* WithState *) discriminate.
+  - (* Prog *) destruct (prog_sem toks spn ops p [] [] p) as [[[] acc] p1] eqn:E; injection H as <- <-; (split; [auto with wf|]); intros a Ha;
+      cbn [Sem.sem]; rewrite E, ?ee_lift by auto with wf; reflexivity.
 Qed.
 
 (* the shelter corollary: running on an empty register and merging the result back is running on the register *)
